@@ -59,6 +59,23 @@ def unwrap(n):
     return n
 
 
+def return_type_of(fq):
+    """return type of a function type string `<ret>(<params>)<quals>`; the return type itself may contain parentheses
+    (`(anonymous namespace)::t &(const v &)`), so the parameter list is found from the right"""
+    if '->' in fq.split(')')[-1]:
+        return fq.split('(')[0].strip()
+    j = fq.rfind(')')
+    depth = 0
+    for i in range(j, -1, -1):
+        if fq[i] == ')':
+            depth += 1
+        elif fq[i] == '(':
+            depth -= 1
+            if depth == 0:
+                return fq[:i].strip()
+    return fq.split('(')[0].strip()
+
+
 def string_literal_of(n):
     """the string literal an expression is built from ("name" -> std::string_view etc.), else None"""
     seen = 0
@@ -79,8 +96,14 @@ def string_literal_of(n):
 
 class Printer:
     def __init__(self, cname, types=(), calls=(), members=(), hooks=(), self_struct=None, aggregates=(),
-                 stmt_hooks=(), uf_float=True, opaque=()):
+                 stmt_hooks=(), uf_float=True, opaque=(), dtors=()):
         self.cname = cname
+        # scope-exit destructors (RAII): (regex on cv-stripped type, mapping).  A local of such a type gets
+        # `mapping(&local)` printed wherever control leaves its scope: end of block, break / continue / return / throw
+        # crossing it.  (clang's AST has no node for implicit destructor calls; this is C++'s rule, applied here.)
+        self.dtors = list(dtors)
+        self.scopes = []                # stack of lists of (variable name, mapping) with a registered destructor
+        self.loop_scope = []            # scope depth at each enclosing loop (for break / continue)
         self.uf_float = uf_float
         self.opaque = list(opaque)      # regexes: class types erased to `struct nv_opaque` (numerics the contract does not track)
         self.erased = []                # evidence: erased statements / auto-havocked expressions
@@ -510,13 +533,39 @@ class Printer:
         raise Unsupported(f'constructor not mapped: {key}')
 
     # ------------------------------------------------------------------ statements
+    def unwind(self, depth, p):
+        """destructor calls for every live RAII local of the scopes deeper than `depth`, innermost and latest first"""
+        out = ''
+        for sc in reversed(self.scopes[depth:]):
+            for nm, m in reversed(sc):
+                self.note(m + ' (scope exit)')
+                out += f'{p}{m}(&{nm});\n'
+        return out
+
+    def register_dtor(self, v):
+        if not self.dtors:
+            return
+        q = strip_cv(qual(v['type']))
+        for rx, m in self.dtors:
+            if re.search(rx, q) or re.search(rx, strip_cv(v['type'].get('qualType', ''))):
+                if v['type'].get('qualType', '').rstrip().endswith('&'):
+                    return
+                if not self.scopes:
+                    raise Unsupported(f'RAII local {v["name"]} outside any block')
+                self.scopes[-1].append((v['name'], m))
+                return
+
     def throw_stmt(self, p):
         self.may_throw = True
+        if any(self.scopes):
+            return f'{p}{{ nv_thrown = 1;\n{self.unwind(0, p + "  ")}{p}  return {self.default_value(self.ret_ctype)}; }}\n'
         return f'{p}{{ nv_thrown = 1; return {self.default_value(self.ret_ctype)}; }}\n'
 
     def after(self, p):
         if getattr(self, 'pending_throw', False):
             self.pending_throw = False
+            if any(self.scopes):
+                return f'{p}if (nv_thrown)\n{p}{{\n{self.unwind(0, p + "  ")}{p}  return {self.default_value(self.ret_ctype)};\n{p}}}\n'
             return f'{p}if (nv_thrown) return {self.default_value(self.ret_ctype)};\n'
         return ''
 
@@ -562,9 +611,12 @@ class Printer:
                 return f'{p}struct nv_opaque nv_ref{self.tmp}; {c} {v["name"]} = &nv_ref{self.tmp};\n'
             return f'{p}{c} {v["name"]} = {self.addr(init[0])};\n' + self.after(p)
         if not init:
+            self.register_dtor(v)
             return f'{p}{c} {v["name"]};\n'
         e = self.expr(init[0])
-        return f'{p}{c} {v["name"]} = {e};\n' + self.after(p)
+        out = f'{p}{c} {v["name"]} = {e};\n' + self.after(p)
+        self.register_dtor(v)
+        return out
 
     def cond(self, n):
         e = self.expr(n)
@@ -585,7 +637,17 @@ class Printer:
         inner = n.get('inner', [])
         p = '  ' * ind
         if k == 'CompoundStmt':
-            return p + '{\n' + ''.join(self.stmt(c, ind + 1) for c in inner) + p + '}\n'
+            self.scopes.append([])
+            body = ''
+            last = None
+            for c in inner:
+                body += self.stmt(c, ind + 1)
+                last = c.get('kind')
+            sc = self.scopes[-1]
+            if sc and last not in ('BreakStmt', 'ContinueStmt', 'ReturnStmt', 'CXXThrowExpr'):
+                body += self.unwind(len(self.scopes) - 1, p + '  ')
+            self.scopes.pop()
+            return p + '{\n' + body + p + '}\n'
         if k == 'DeclStmt':
             return ''.join(self.vardecl(v, p) for v in inner)
         if k == 'IfStmt':
@@ -606,25 +668,46 @@ class Printer:
             if condvar:
                 raise Unsupported('for with condition variable')
             s = f'{p}{{\n'
+            self.scopes.append([])
             if init:
                 s += self.stmt(init, ind + 1)
             c = self.cond(cond) if cond else '1'
             i = self.cond(inc) if inc else ''
             mac = self.loop_macro()
-            s += f'{p}  for (; {c}; {i})\n{p}  {mac}\n' + self.block(body, ind + 1) + f'{p}}}\n'
+            self.loop_scope.append(len(self.scopes))
+            s += f'{p}  for (; {c}; {i})\n{p}  {mac}\n' + self.block(body, ind + 1)
+            self.loop_scope.pop()
+            s += self.unwind(len(self.scopes) - 1, p + '  ') + f'{p}}}\n'
+            self.scopes.pop()
             return s
         if k == 'WhileStmt':
             if len(inner) != 2:
                 raise Unsupported('while with condition variable')
             mac = self.loop_macro()
-            return f'{p}while ({self.cond(inner[0])})\n{p}{mac}\n' + self.block(inner[1], ind)
+            self.loop_scope.append(len(self.scopes))
+            s = f'{p}while ({self.cond(inner[0])})\n{p}{mac}\n' + self.block(inner[1], ind)
+            self.loop_scope.pop()
+            return s
         if k == 'DoStmt':
             mac = self.loop_macro()
-            return f'{p}do\n{p}{mac}\n' + self.block(inner[0], ind) + f'{p}while ({self.cond(inner[1])});\n'
+            self.loop_scope.append(len(self.scopes))
+            s = f'{p}do\n{p}{mac}\n' + self.block(inner[0], ind) + f'{p}while ({self.cond(inner[1])});\n'
+            self.loop_scope.pop()
+            return s
         if k == 'ReturnStmt':
             if not inner:
-                return f'{p}return;\n'
-            e = self.expr(inner[0])
+                return self.unwind(0, p) + f'{p}return;\n'
+            # a function returning a reference returns the address of the denoted object (references print as pointers)
+            e = self.addr(inner[0]) if getattr(self, 'ret_is_ref', False) else self.expr(inner[0])
+            if any(self.scopes):
+                # the return value is computed first, then the RAII locals are destroyed (C++ order)
+                self.tmp += 1
+                t = f'nv_ret{self.tmp}'
+                thr = ''
+                if getattr(self, 'pending_throw', False):
+                    self.pending_throw = False
+                    thr = f'if (nv_thrown) {t} = {self.default_value(self.ret_ctype)}; '
+                return f'{p}{{ {self.ret_ctype} {t} = {e}; {thr}\n{self.unwind(0, p + "  ")}{p}  return {t}; }}\n'
             if getattr(self, 'pending_throw', False):
                 self.pending_throw = False
                 self.tmp += 1
@@ -632,14 +715,20 @@ class Printer:
                 return (f'{p}{{ {self.ret_ctype} {t} = {e}; if (nv_thrown) return {self.default_value(self.ret_ctype)}; '
                         f'return {t}; }}\n')
             return f'{p}return {e};\n'
-        if k == 'BreakStmt':
-            return f'{p}break;\n'
-        if k == 'ContinueStmt':
-            return f'{p}continue;\n'
+        if k in ('BreakStmt', 'ContinueStmt'):
+            word = 'break' if k == 'BreakStmt' else 'continue'
+            if any(self.scopes):
+                if not self.loop_scope or getattr(self, 'in_switch', 0):
+                    raise Unsupported(f'{word} with live RAII locals outside a plain loop')
+                return self.unwind(self.loop_scope[-1], p) + f'{p}{word};\n'
+            return f'{p}{word};\n'
         if k == 'NullStmt':
             return f'{p};\n'
         if k == 'SwitchStmt':
-            return f'{p}switch ({self.cond(inner[0])})\n' + self.block(inner[1], ind)
+            self.in_switch = getattr(self, 'in_switch', 0) + 1
+            s = f'{p}switch ({self.cond(inner[0])})\n' + self.block(inner[1], ind)
+            self.in_switch -= 1
+            return s
         if k == 'CaseStmt':
             return f'{p}case {self.expr(inner[0])}:\n' + self.stmt(inner[1], ind + 1)
         if k == 'DefaultStmt':
@@ -688,14 +777,21 @@ class Printer:
         init, rng, beg, end, cond, inc, var, body = inner
         p = '  ' * ind
         s = f'{p}{{\n'
+        self.scopes.append([])
         for d in (init, rng, beg, end):
             if d:
                 s += self.stmt(d, ind + 1)
         mac = self.loop_macro()
+        self.loop_scope.append(len(self.scopes))
         s += f'{p}  for (; {self.cond(cond)}; {self.cond(inc)})\n{p}  {mac}\n{p}  {{\n'
+        self.scopes.append([])
         s += self.stmt(var, ind + 2)
         s += self.block(body, ind + 2)
-        s += f'{p}  }}\n{p}}}\n'
+        s += self.unwind(len(self.scopes) - 1, p + '    ')
+        self.scopes.pop()
+        self.loop_scope.pop()
+        s += f'{p}  }}\n' + self.unwind(len(self.scopes) - 1, p + '  ') + f'{p}}}\n'
+        self.scopes.pop()
         return s
 
     def block(self, n, ind):
@@ -709,7 +805,7 @@ class Printer:
         params = [c for c in d['inner'] if c['kind'] == 'ParmVarDecl']
         body = [c for c in d['inner'] if c['kind'] == 'CompoundStmt'][0]
         fq = d['type']['qualType']
-        rett = fq.split('(')[0].strip()
+        rett = return_type_of(fq)
         if d.get('kind') == 'CXXConstructorDecl':
             rc = 'void'
         elif ret_override:
@@ -717,6 +813,7 @@ class Printer:
         else:
             rc = self.ctype_q(rett)
         self.ret_ctype = rc
+        self.ret_is_ref = rett.rstrip().endswith('&') and d.get('kind') != 'CXXConstructorDecl'
         ps = []
         if self.self_struct:
             ps.append(f'{self.self_struct}* self')
@@ -738,6 +835,10 @@ class Printer:
                 e = c['inner'][0]
                 if e.get('kind') == 'CXXDefaultInitExpr':
                     e = e['inner'][0] if e.get('inner') else None
+                    if e is None and getattr(self, 'field_init', None):
+                        # clang does not repeat the default member initialiser (`bool m_stop{false};`) under the
+                        # constructor: it is read from the field's own declaration in the same TU
+                        e = self.field_init(d.get('name'), any_['name'])
                     if e is None:
                         raise Unsupported(f'default member initialiser of {any_["name"]} is not in the dump')
                 pre += f'  self->{any_["name"]} = {self.expr(e)};\n' + self.after('  ')
